@@ -18,6 +18,14 @@ theorem nesting_check : Facts.llo_TSV_unmarshalBinary_cmps =
 theorem max_observation_length : Facts.llo_MaxObservationLength = 1048576 := by decide
 theorem max_stream_values : Facts.llo_MaxObservationStreamValuesLength = 10000 := by decide
 
+/-- K6: `VerifyChannelDefinitions` joins its errors once, after the loop — no `errors.Join` call sits
+    inside a `for` statement (so `verify_error_cost_linear` is the applicable shape) -/
+theorem verify_joins_once : Facts.llo_VerifyChannelDefinitions_joins_in_loops = []
+    ∧ Facts.llo_VerifyChannelDefinitions_joins = ["errors.Join(errs...)"] := by decide
+
+/-- the same for `buildPayload` of the EVM ABI-unpacked codec (second instance of K6) -/
+theorem payload_joins_once : Facts.evm_buildPayload_joins_in_loops = [] := by decide
+
 /-- `decode_cost_linear` with the limit of the working tree: at most `11·|b| + 3` -/
 theorem decode_cost_linear_repo (typ : Nat) (b : Bytes) :
     (svDecode (some Facts.llo_maxTimestampedStreamValueNesting) typ b).cost ≤ 11 * b.length + 3 := by
